@@ -218,7 +218,6 @@ static int pick(int me_runnable) {
                     for (int k = 0; k < nc; k++)
                         if (cand[k] != my_tid) others[no++] = cand[k];
                     if (no > 0) chosen = others[(uint64_t) prm % (uint64_t) no];
-                    sim_fault_count[F_SWITCH]--; /* counted below once */
                 }
             }
         }
